@@ -201,6 +201,7 @@ zLUMemInit(fact_t fact, void *work, int_t lwork, int m, int n, int_t annz,
     doublecomplex   *ucol;
     int_t    *usub, *xusub;
     int_t    nzlmax, nzumax, nzlumax;
+    int_t    head_top1 = 0, head_used = 0; /* USER model: stack state before the L\U requests */
     
     iword     = sizeof(int);
     dword     = sizeof(doublecomplex);
@@ -244,6 +245,10 @@ zLUMemInit(fact_t fact, void *work, int_t lwork, int m, int n, int_t annz,
 	    xusub  = zuser_malloc((n+1) * iword, HEAD, Glu);
 	}
 
+	if ( Glu->MemModel == USER ) {
+	    head_top1 = Glu->stack.top1;
+	    head_used = Glu->stack.used;
+	}
 	lusup = (doublecomplex *) zexpand( &nzlumax, LUSUP, 0, 0, Glu );
 	ucol  = (doublecomplex *) zexpand( &nzumax, UCOL, 0, 0, Glu );
 	lsub  = (int_t *) zexpand( &nzlmax, LSUB, 0, 0, Glu );
@@ -256,8 +261,10 @@ zLUMemInit(fact_t fact, void *work, int_t lwork, int m, int n, int_t annz,
 		SUPERLU_FREE(lsub); 
 		SUPERLU_FREE(usub);
 	    } else {
-		zuser_free((nzlumax+nzumax)*dword+(nzlmax+nzumax)*iword,
-                            HEAD, Glu);
+		/* Release exactly what the four requests obtained (some may
+		   have failed, and alignment padding may have been added). */
+		Glu->stack.top1 = head_top1;
+		Glu->stack.used = head_used;
 	    }
 	    nzlumax /= 2;
 	    nzumax /= 2;
